@@ -331,9 +331,21 @@ class Run:
                                  url_scheme=self.sc.get("url_scheme", "https"))
                 self.clients[key] = svc["sync"](transport=tr)
             else:
-                ch = simgrpc.SimChannel(self.sim)
+                if self.sc.get("channel_via") == "create_channel":
+                    # the transport builds its OWN channel (the normal production path): the seam is api-core's
+                    # grpc_helpers.create_channel, which receives the channel args the emitted transport asks for
+                    from google.api_core import grpc_helpers
+                    made, orig = {}, grpc_helpers.create_channel
+                    grpc_helpers.create_channel = lambda target, **kw: made.setdefault("ch", simgrpc.SimChannel(self.sim, options=kw.get("options") or []))
+                    try:
+                        tr = svc["grpc"](credentials=ga_credentials.AnonymousCredentials(), host="sim.invalid")
+                    finally:
+                        grpc_helpers.create_channel = orig
+                    ch = made["ch"]
+                else:
+                    ch = simgrpc.SimChannel(self.sim)
+                    tr = svc["grpc"](channel=ch, host="sim.invalid")
                 self.channels[key] = ch
-                tr = svc["grpc"](channel=ch, host="sim.invalid")
                 if self.sc.get("credentials") == "refreshable":
                     tr._credentials = SimCredentials(self.sim)      # as if the transport had been built from credentials
                 self.clients[key] = svc["sync"](transport=tr)
@@ -344,9 +356,19 @@ class Run:
         key = (service, "async", actor if self.sc.get("clients") == "per_actor" else 0)
         if key not in self.clients:
             svc = self.world.services[service]
-            ch = simgrpc.SimAioChannel(self.sim)
+            if self.sc.get("channel_via") == "create_channel":
+                from google.api_core import grpc_helpers_async
+                made, orig = {}, grpc_helpers_async.create_channel
+                grpc_helpers_async.create_channel = lambda target, **kw: made.setdefault("ch", simgrpc.SimAioChannel(self.sim, options=kw.get("options") or []))
+                try:
+                    tr = svc["grpc_asyncio"](credentials=ga_credentials.AnonymousCredentials(), host="sim.invalid")
+                finally:
+                    grpc_helpers_async.create_channel = orig
+                ch = made["ch"]
+            else:
+                ch = simgrpc.SimAioChannel(self.sim)
+                tr = svc["grpc_asyncio"](channel=ch, host="sim.invalid")
             self.channels[key] = ch
-            tr = svc["grpc_asyncio"](channel=ch, host="sim.invalid")
             if self.sc.get("credentials") == "refreshable":
                 tr._credentials = SimCredentials(self.sim)
             self.clients[key] = svc["async"](transport=tr)
